@@ -102,4 +102,10 @@ theorem enospc_means_full {v : Vol} {count : Nat} {s : St} (h : Inv v count s) (
     (hno : allocate v.p s.fat s.hint v.bound n = none) : Proofs.Alloc.avail v.p s.fat v.bound 0 ≤ n :=
   Proofs.FsHint.enospc_means_full h.hintOK hno
 
+/-- the model's I/O-error branches (a cursor outside the chain, a directory without a cluster, an empty
+    allocation) are never taken: in a state with the invariant and well-shaped files no call ends in `eio` -/
+theorem never_eio {v : Vol} {count : Nat} (hv : VolOK v count) {s : St} (h : Inv v count s)
+    (hs : Proofs.FsShape.ShapeNodes v.bpc s.nodes) (op : Op) : (step v s op).2 ≠ .err .eio :=
+  (step_good hv h op).2.2.2.2 hs
+
 end Proofs.FsRun
